@@ -6,10 +6,12 @@ CONSTANTS
   TsSet = {1, 2}
   LiveSt = {"ACTIVE", "LEAVING"}
   MaxUpd = 1
-  MaxClock = 2
+  MaxClock = 1
+  ThinK = @@THINK@@
+  ThinR = @@THINR@@
 INIT Init
 NEXT Next
 VIEW View
 INVARIANTS TypeOK InvTokenUnique InvLeftHasNoTokens InvNormal EmitPath
-PROPERTIES StepRules
+PROPERTIES StepRules EmitResolving
 CHECK_DEADLOCK FALSE
